@@ -447,7 +447,7 @@ Proof.
       destruct (Nat.ltb_spec (length d) n) as [_|Hge]; [|lia]. cbn [fst snd].
       split; [reflexivity|]. split; [|congruence]. split; [exact Hw'|]. rewrite He.
       apply d_abs_app; assumption.
-  - intros w' ([Hs _] & Hf & Hlen). unfold step_panic. cbn [dstep].
+  - intros w' (Hs & _ & Hf & Hlen). unfold step_panic. cbn [dstep].
     destruct (d_abs_none _ _ _ Hu Hp Hf) as [Hd _]. rewrite Hd.
     assert (Hge : n <= length d).
     { rewrite <- (Permutation_length Hp), (elems_length _ Hw). lia. }
@@ -476,7 +476,7 @@ Proof.
       destruct (Nat.ltb_spec (length d) n) as [_|Hge]; [|lia]. cbn [fst snd].
       split; [reflexivity|]. split; [|congruence]. split; [exact Hw'|]. rewrite He.
       apply d_abs_app; assumption.
-  - intros w' ([Hs _] & Hf & Hlen). unfold step_panic. cbn [dstep].
+  - intros w' (Hs & _ & Hf & Hlen). unfold step_panic. cbn [dstep].
     destruct (d_abs_none _ _ _ Hu Hp Hf) as [Hd _]. rewrite Hd.
     assert (Hge : n <= length d).
     { rewrite <- (Permutation_length Hp), (elems_length _ Hw). lia. }
